@@ -36,7 +36,7 @@ def all_parts_escaped(term, depth=0):
             return Z.And(*[all_parts_escaped(t.arg(i), depth + 1) for i in range(t.num_args())])
         if k == z3.Z3_OP_ITE:
             return z3.If(t.arg(0), all_parts_escaped(t.arg(1), depth + 1), all_parts_escaped(t.arg(2), depth + 1))
-        if k == z3.Z3_OP_UNINTERPRETED and t.decl().name() == 'str_encode':
+        if k == z3.Z3_OP_UNINTERPRETED and (t.decl().name() == 'str_encode' or t.decl().name().startswith('str_sanitised:')):
             # A-enc: UTF-8 encoding (also with backslashreplace, which only adds '\\', letters and hex digits)
             # neither introduces nor removes an ASCII markup character
             return all_parts_escaped(t.arg(0), depth + 1)
